@@ -18,6 +18,20 @@ func (x *Exec) ifaceMethodKey(c *ssa.CallCommon) string {
 	return name + "." + c.Method.Name()
 }
 
+func (x *Exec) isPureInvoke(c *ssa.CallCommon) bool {
+	return x.CS.IsPure(typeKey(c.Value.Type()), c.Method.Name())
+}
+
+// ifaceUFName names the uninterpreted function of a pure interface method: by method name and
+// signature only, because dynamic dispatch on (type tag, receiver) reaches the same concrete method
+// whatever the static interface type of the call site is.
+func ifaceUFName(method string, sig string) string { return "im:" + method + ":" + sig }
+
+func sigString(sig *types.Signature) string {
+	s := types.NewSignatureType(nil, nil, nil, sig.Params(), sig.Results(), sig.Variadic())
+	return types.TypeString(s, func(p *types.Package) string { return p.Name() })
+}
+
 func (x *Exec) doCall(fr *Frame, st *State, in ssa.Instruction, c *ssa.CallCommon, ret callK, k func(*pathEnd)) {
 	var args []Value
 	if c.IsInvoke() {
@@ -192,7 +206,7 @@ func (x *Exec) invoke(fr *Frame, st *State, c *ssa.CallCommon, recv *IfaceV, arg
 			}
 		}
 	}
-	if x.CS.PureIface[key] || c.Method.Name() == "Error" && len(args) == 0 {
+	if x.isPureInvoke(c) || c.Method.Name() == "Error" && len(args) == 0 {
 		ret(fr, st, x.pureIfaceCall(st, key, recv, args, c, rt))
 		return
 	}
@@ -230,7 +244,11 @@ func (x *Exec) pureIfaceCall(st *State, key string, recv *IfaceV, args []Value, 
 		cs := x.compsOf(t)
 		var ts []*Term
 		for _, cp := range cs {
-			ts = append(ts, x.D.Fun(smtName("im:"+key+suffix+cp.suffix), cp.sort, ins...))
+			app := x.D.Fun(smtName(ifaceUFName(c.Method.Name(), sigString(sig))+suffix+cp.suffix), cp.sort, ins...)
+			ts = append(ts, app)
+			if len(args) == 0 {
+				x.addInput(ModelVar{"call:" + c.Method.Name() + suffix + cp.suffix + "@" + recv.Ref.S, app.S, cp.sort.String()})
+			}
 		}
 		v, _ := x.unflatten(t, ts)
 		x.assumeTypeInv(st, t, v)
@@ -297,7 +315,12 @@ func (x *Exec) applyContract(fr *Frame, st *State, fn *ssa.Function, con *FuncCo
 		if i < len(con.Results) {
 			rn = con.Results[i]
 		}
-		v := x.freshValue(st, rs.At(i).Type(), "ret."+fn.Name()+"."+rn)
+		var v Value
+		if con.Functional {
+			v = x.functionalResult(st, fn, i, args)
+		} else {
+			v = x.freshValue(st, rs.At(i).Type(), "ret."+fn.Name()+"."+rn)
+		}
 		results = append(results, v)
 		post.bind(rn, TV{v, rs.At(i).Type()})
 		if rs.Len() == 1 {
@@ -664,4 +687,15 @@ func (x *Exec) checkEvent(fr *Frame, st *State, kind string, ch ssa.Value, v Val
 		x.emit(st, "callback", fmt.Sprintf("%s:%s", cl.Name, cl.Label), g, false, cl.Line)
 	}
 	st.ghost["$sent:"+tgt] = TTrue
+}
+
+func (x *Exec) addInput(m ModelVar) {
+	for _, e := range x.inputs {
+		if e.Term == m.Term {
+			return
+		}
+	}
+	if len(x.inputs) < 400 {
+		x.inputs = append(x.inputs, m)
+	}
 }
